@@ -85,3 +85,4 @@ pub mod c31;
 pub mod c09;
 pub mod c28;
 pub mod c14;
+pub mod sync;
